@@ -8,7 +8,8 @@ Inductive ret_class :=
 | REgo                  (* return ego.Ego() *)
 | RChain (m : bytes)    (* return ego.Ego().m(...) : whatever m returns when called on the registered value *)
 | RRaw                  (* return ego : the embedded value, losing the derived type *)
-| ROther.               (* anything else (a new container, a plain value) *)
+| ROther                (* a new container, a local, a plain value: not the receiver *)
+| RUnknown.             (* an expression the translator cannot classify (a call it cannot resolve) *)
 
 Definition method_table := list (bytes * bytes * list ret_class).      (* name, result type, classes of its return statements *)
 
@@ -45,7 +46,7 @@ Section Sem.
                                     | REgo => [Some (c, ptr c)]
                                     | RChain m => ret_values f c m      (* called on ego.Ego(): the same cell *)
                                     | RRaw => [Some (c, O)]
-                                    | ROther => [None]
+                                    | ROther | RUnknown => [None]
                                     end) rets
              end
     end.
@@ -88,3 +89,13 @@ Definition classified (iface_methods : list (bytes * bytes)) (self : bytes) (flu
   forallb (fun m => if bytes_eqb (snd m) self
                     then existsb (bytes_eqb (fst m)) fluent || existsb (bytes_eqb (fst m)) deriving
                     else true) iface_methods.
+
+(* does the translator know what every return statement of the method (and of the methods it chains to) hands back? *)
+Fixpoint readable (fuel : nat) (t : method_table) (name : bytes) : bool :=
+  match fuel with
+  | O => false
+  | S f => match find_method name t with
+           | None => false
+           | Some (_, rets) => forallb (fun r => match r with RUnknown => false | RChain m => readable f t m | _ => true end) rets
+           end
+  end.
